@@ -1,12 +1,530 @@
-//! C15: not yet implemented
+//! C15: race codes, path builders, repository ordering and index/dat file names.
+//! T2: `dump` evaluates the compiled `get_race_id` / `get_supported_tribes` over their whole
+//! finite domain and prints `Generated/RaceTable.lean`; `dump witness` brute-forces the property
+//! on the real code (used when a theorem over the regenerated table breaks).
 #![allow(unused)]
 use crate::util::*;
+use physis::common::Platform;
+use physis::equipment::*;
+use physis::race::*;
+use physis::repository::{Category, Repository, RepositoryType};
 use std::io::Write;
 
-pub fn generate(thorough: bool, seed: u64, out: &mut dyn Write) {}
-
-pub fn run(case: &str, input: &str) -> String {
-    "unimplemented".to_string()
+fn race(n: u64) -> Option<Race> {
+    Race::try_from(n as u8).ok()
+}
+fn tribe(n: u64) -> Option<Tribe> {
+    Tribe::try_from(n as u8).ok()
+}
+fn gender(n: u64) -> Option<Gender> {
+    Gender::try_from(n as u8).ok()
+}
+fn slot(n: u64) -> Option<Slot> {
+    Some(match n {
+        0 => Slot::Head,
+        1 => Slot::Hands,
+        2 => Slot::Legs,
+        3 => Slot::Feet,
+        4 => Slot::Body,
+        5 => Slot::Earring,
+        6 => Slot::Neck,
+        7 => Slot::Wrists,
+        8 => Slot::RingLeft,
+        9 => Slot::RingRight,
+        _ => return None,
+    })
+}
+fn slot_index(s: &Slot) -> u64 {
+    match s {
+        Slot::Head => 0,
+        Slot::Hands => 1,
+        Slot::Legs => 2,
+        Slot::Feet => 3,
+        Slot::Body => 4,
+        Slot::Earring => 5,
+        Slot::Neck => 6,
+        Slot::Wrists => 7,
+        Slot::RingLeft => 8,
+        Slot::RingRight => 9,
+    }
+}
+fn char_cat(n: u64) -> Option<CharacterCategory> {
+    Some(match n {
+        0 => CharacterCategory::Body,
+        1 => CharacterCategory::Hair,
+        2 => CharacterCategory::Face,
+        3 => CharacterCategory::Tail,
+        4 => CharacterCategory::Ear,
+        _ => return None,
+    })
+}
+const CATEGORIES: [(u64, Category); 15] = [
+    (0x00, Category::Common),
+    (0x01, Category::BackgroundCommon),
+    (0x02, Category::Background),
+    (0x03, Category::Cutscene),
+    (0x04, Category::Character),
+    (0x05, Category::Shader),
+    (0x06, Category::UI),
+    (0x07, Category::Sound),
+    (0x08, Category::VFX),
+    (0x09, Category::UIScript),
+    (0x0A, Category::EXD),
+    (0x0B, Category::GameScript),
+    (0x0C, Category::Music),
+    (0x12, Category::SqPackTest),
+    (0x13, Category::Debug),
+];
+fn category(n: u64) -> Option<Category> {
+    CATEGORIES.iter().find(|(k, _)| *k == n).map(|(_, c)| *c)
+}
+fn platform(n: u64) -> Option<Platform> {
+    Some(match n {
+        0 => Platform::Win32,
+        1 => Platform::PS3,
+        2 => Platform::PS4,
+        3 => Platform::PS5,
+        4 => Platform::Xbox,
+        _ => return None,
+    })
 }
 
-pub fn dump(out: &mut dyn Write) {}
+/// the valid (race, tribe) pairs according to the *implementation* (supported tribes)
+fn valid_triples() -> Vec<(u64, u64, u64)> {
+    let mut v = vec![];
+    for r in 1..=8u64 {
+        for t in get_supported_tribes(race(r).unwrap()) {
+            for g in 0..=1u64 {
+                v.push((r, t as u8 as u64, g));
+            }
+        }
+    }
+    v
+}
+
+pub fn generate(thorough: bool, seed: u64, out: &mut dyn Write) {
+    let mut rng = Rng::new(seed, "C15");
+    // race ids and supported tribes: the whole domain, every run
+    for r in 1..=8 {
+        writeln!(out, "tribes {}", r).unwrap();
+        for t in 1..=16 {
+            for g in 0..=1 {
+                writeln!(out, "race {} {} {}", r, t, g).unwrap();
+            }
+        }
+    }
+    // own tribes of each race (the specification's table, not the implementation's)
+    let own = |r: u64| [2 * r - 1, 2 * r];
+    for r in 1..=8u64 {
+        for t in own(r) {
+            for g in 0..=1u64 {
+                writeln!(out, "skel {} {} {}", r, t, g).unwrap();
+                for cat in 0..5 {
+                    for ver in [0u64, 1, 9, 10, 99, 100, 101, 999, 1000, 9999, rng.below(10000)] {
+                        writeln!(out, "char {} {} {} {} {}", cat, ver, r, t, g).unwrap();
+                    }
+                }
+            }
+        }
+    }
+    // equipment paths: 10 slots x ids 0..9999 (thorough: all; quick: every 10th + boundaries)
+    for s in 0..10u64 {
+        for id in 0..10000u64 {
+            let take = thorough
+                || id % 10 == (s % 10)
+                || matches!(id, 0 | 1 | 9 | 10 | 99 | 100 | 999 | 1000 | 9998 | 9999);
+            if take {
+                let r = rng.range(1, 8);
+                let t = own(r)[rng.below(2) as usize];
+                let g = rng.below(2);
+                writeln!(out, "equip {} {} {} {} {}", id, r, t, g, s).unwrap();
+            }
+        }
+    }
+    // file names: 15 categories x ex 0..9 x chunk 0..9 x 5 platforms x dat 0..7
+    for (c, _) in CATEGORIES.iter() {
+        for ex in 0..10u64 {
+            for chunk in 0..10u64 {
+                for p in 0..5u64 {
+                    for dat in 0..8u64 {
+                        let take = thorough || (c + ex + chunk + p + dat + seed) % 10 == 0;
+                        if take {
+                            writeln!(out, "names {} {} {} {} {}", c, ex, chunk, p, dat).unwrap();
+                        }
+                    }
+                }
+            }
+        }
+    }
+    // repository ordering: permutations of subsets of {0 (base), 1..9}, up to 7 members
+    let n = if thorough { 3000 } else { 300 };
+    // all permutations of a few fixed sets
+    let fixed: Vec<Vec<u64>> = vec![vec![0, 1, 2], vec![0, 1, 2, 3], vec![1, 2, 3], vec![0, 5, 9, 2]];
+    for set in fixed {
+        let mut idx: Vec<usize> = (0..set.len()).collect();
+        permute(&mut idx, 0, &mut |p| {
+            let l: Vec<String> = p.iter().map(|i| set[*i].to_string()).collect();
+            writeln!(out, "sort {}", l.join(",")).unwrap();
+            if set.contains(&0) {
+                writeln!(out, "discover {}", l.join(",")).unwrap();
+            }
+        });
+    }
+    for _ in 0..n {
+        let k = rng.range(1, 7) as usize;
+        let mut pool: Vec<u64> = (0..10).collect();
+        let mut l: Vec<String> = vec![];
+        for _ in 0..k {
+            let i = rng.below(pool.len() as u64) as usize;
+            l.push(pool.remove(i).to_string());
+        }
+        writeln!(out, "sort {}", l.join(",")).unwrap();
+        // discovery always finds the base game (the game directory itself): include it
+        if !l.iter().any(|x| x == "0") {
+            let at = rng.below(l.len() as u64 + 1) as usize;
+            l.insert(at, "0".to_string());
+        }
+        writeln!(out, "discover {}", l.join(",")).unwrap();
+    }
+}
+
+fn permute(idx: &mut Vec<usize>, k: usize, f: &mut dyn FnMut(&[usize])) {
+    if k == idx.len() {
+        f(idx);
+        return;
+    }
+    for i in k..idx.len() {
+        idx.swap(k, i);
+        permute(idx, k + 1, f);
+        idx.swap(k, i);
+    }
+}
+
+fn nums(f: &[&str]) -> Option<Vec<u64>> {
+    f.iter().map(|s| s.parse().ok()).collect()
+}
+
+/// A minimal well-formed ZiPatch: header, TargetInfo(platform), AddData with zero blocks,
+/// HeaderUpdate for `.index` and `.index2`, EOF.  Layout as the format defines it (platform is a
+/// big-endian u16).  Only used to observe which files `ZiPatch::apply` touches.
+fn naming_patch(cat: u64, ex: u64, chunk: u64, plat: u64, dat: u64) -> Vec<u8> {
+    let mut p = vec![0x91];
+    p.extend_from_slice(b"ZIPATCH");
+    p.extend_from_slice(&[0x0d, 0x0a, 0x1a, 0x0a]);
+    let sub = ((ex << 8) | chunk) as u16;
+    let sqpk = |p: &mut Vec<u8>, op: u8, body: &[u8]| {
+        let inner = 4 + 1 + body.len();
+        p.extend_from_slice(&(inner as u32).to_be_bytes()); // chunk size
+        p.extend_from_slice(b"SQPK");
+        p.extend_from_slice(&(inner as u32).to_be_bytes()); // sqpk size
+        p.push(op);
+        p.extend_from_slice(body);
+        p.extend_from_slice(&[0, 0, 0, 0]); // crc32 (not checked)
+    };
+    // T
+    let mut t = vec![0u8; 3];
+    t.extend_from_slice(&(plat as u16).to_be_bytes());
+    t.extend_from_slice(&(-1i16).to_be_bytes());
+    t.extend_from_slice(&0u16.to_be_bytes());
+    t.extend_from_slice(&0u16.to_be_bytes());
+    t.extend_from_slice(&0u64.to_le_bytes());
+    t.extend_from_slice(&0u64.to_le_bytes());
+    t.extend_from_slice(&[0u8; 96]);
+    sqpk(&mut p, b'T', &t);
+    // A: zero blocks at offset 0
+    let mut a = vec![0u8; 3];
+    a.extend_from_slice(&(cat as u16).to_be_bytes());
+    a.extend_from_slice(&sub.to_be_bytes());
+    a.extend_from_slice(&(dat as u32).to_be_bytes());
+    a.extend_from_slice(&0u32.to_be_bytes());
+    a.extend_from_slice(&0u32.to_be_bytes());
+    a.extend_from_slice(&0u32.to_be_bytes());
+    sqpk(&mut p, b'A', &a);
+    // H for index (file id 0) and index2 (file id 2)
+    for fid in [0u32, 2] {
+        let mut h = vec![b'I', b'I', 0];
+        h.extend_from_slice(&(cat as u16).to_be_bytes());
+        h.extend_from_slice(&sub.to_be_bytes());
+        h.extend_from_slice(&fid.to_be_bytes());
+        h.extend_from_slice(&[0u8; 1024]);
+        sqpk(&mut p, b'H', &h);
+    }
+    p.extend_from_slice(&0u32.to_be_bytes());
+    p.extend_from_slice(b"EOF_");
+    p
+}
+
+fn list_files(root: &std::path::Path, rel: &str, out: &mut Vec<String>) {
+    if let Ok(rd) = std::fs::read_dir(root.join(rel)) {
+        for e in rd.flatten() {
+            let name = e.file_name().to_string_lossy().to_string();
+            let r = if rel.is_empty() { name.clone() } else { format!("{}/{}", rel, name) };
+            if e.file_type().map(|t| t.is_dir()).unwrap_or(false) {
+                list_files(root, &r, out);
+            } else {
+                out.push(r);
+            }
+        }
+    }
+}
+
+pub fn run(case: &str, input: &str) -> String {
+    let f: Vec<&str> = input.split(' ').collect();
+    let Some(a) = nums(&f[1..]).or_else(|| if f[0] == "sort" || f[0] == "discover" { Some(vec![]) } else { None }) else {
+        return "bad-case".into();
+    };
+    match (f[0], a.len()) {
+        ("tribes", 1) => {
+            let Some(r) = race(a[0]) else { return "bad-case".into() };
+            guarded(move || {
+                let t = get_supported_tribes(r);
+                format!("{},{}", t[0] as u8, t[1] as u8)
+            })
+        }
+        ("race", 3) => {
+            let (Some(r), Some(t), Some(g)) = (race(a[0]), tribe(a[1]), gender(a[2])) else {
+                return "bad-case".into();
+            };
+            guarded(move || match get_race_id(r, t, g) {
+                Some(c) => format!("some:{}", c),
+                None => "none".into(),
+            })
+        }
+        ("skel", 3) => {
+            let (Some(r), Some(t), Some(g)) = (race(a[0]), tribe(a[1]), gender(a[2])) else {
+                return "bad-case".into();
+            };
+            guarded(move || build_skeleton_path(r, t, g))
+        }
+        ("char", 5) => {
+            let (Some(c), Some(r), Some(t), Some(g)) = (char_cat(a[0]), race(a[2]), tribe(a[3]), gender(a[4])) else {
+                return "bad-case".into();
+            };
+            let ver = a[1] as i32;
+            guarded(move || build_character_path(c, ver, r, t, g))
+        }
+        ("equip", 5) => {
+            let (Some(r), Some(t), Some(g), Some(s)) = (race(a[1]), tribe(a[2]), gender(a[3]), slot(a[4])) else {
+                return "bad-case".into();
+            };
+            let id = a[0] as i32;
+            guarded(move || {
+                let p = build_equipment_path(id, r, t, g, s);
+                let file = p.rsplit('/').next().unwrap().to_string();
+                let d = match deconstruct_equipment_path(&file) {
+                    Some((i, s)) => format!("some:{},{}", i, slot_index(&s)),
+                    None => "none".into(),
+                };
+                format!("{} {}", p, d)
+            })
+        }
+        ("names", 5) => {
+            let (Some(c), Some(p)) = (category(a[0]), platform(a[3])) else { return "bad-case".into() };
+            let (cat, ex, chunk, plat, dat) = (a[0], a[1], a[2], a[3], a[4]);
+            guarded(move || {
+                let repo = Repository {
+                    name: if ex == 0 { "ffxiv".into() } else { format!("ex{}", ex) },
+                    platform: p,
+                    repo_type: if ex == 0 { RepositoryType::Base } else { RepositoryType::Expansion { number: ex as i32 } },
+                    version: None,
+                };
+                let read = format!(
+                    "{}/{},{}/{},{}/{}",
+                    repo.name,
+                    repo.index_filename(chunk as u8, c),
+                    repo.name,
+                    repo.index2_filename(chunk as u8, c),
+                    repo.name,
+                    repo.dat_filename(chunk as u8, c, dat as u32)
+                );
+                // patch side: which files does applying a patch for the same ids touch?
+                let tmp = TempDir::new(&format!("c15-{}-{}-{}-{}-{}", cat, ex, chunk, plat, dat));
+                let root = tmp.path().join("game");
+                std::fs::create_dir_all(&root).unwrap();
+                let pf = tmp.path().join("p.patch");
+                std::fs::write(&pf, naming_patch(cat, ex, chunk, plat, dat)).unwrap();
+                let res = physis::patch::ZiPatch::apply(root.to_str().unwrap(), pf.to_str().unwrap());
+                let mut files = vec![];
+                list_files(&root.join("sqpack"), "", &mut files);
+                files.sort();
+                // order: dat, index, index2 sorts lexicographically as dat < index < index2 — reorder to index,index2,dat
+                let pick = |suffix: &str| files.iter().find(|f| f.ends_with(suffix)).cloned().unwrap_or("-".into());
+                let patch = if res.is_ok() && files.len() == 3 {
+                    let d = files.iter().find(|f| f.contains(".dat")).cloned().unwrap_or("-".into());
+                    format!("{},{},{}", pick(".index"), pick(".index2"), d)
+                } else {
+                    format!("apply-{}:{}", if res.is_ok() { "ok" } else { "err" }, files.join(";"))
+                };
+                format!("read={} patch={}", read, patch)
+            })
+        }
+        ("sort", _) => {
+            let Some(l) = nums(&f[1].split(',').collect::<Vec<_>>()) else { return "bad-case".into() };
+            guarded(move || {
+                // direct Vec<Repository>::sort from the given initial order
+                let mut v: Vec<Repository> = l
+                    .iter()
+                    .map(|n| Repository {
+                        name: if *n == 0 { "ffxiv".into() } else { format!("ex{}", n) },
+                        platform: Platform::Win32,
+                        repo_type: if *n == 0 { RepositoryType::Base } else { RepositoryType::Expansion { number: *n as i32 } },
+                        version: None,
+                    })
+                    .collect();
+                v.sort();
+                let direct: Vec<String> = v.iter().map(|r| r.name.clone()).collect();
+                direct.join(",")
+            })
+        }
+        ("discover", _) => {
+            let Some(l) = nums(&f[1].split(',').collect::<Vec<_>>()) else { return "bad-case".into() };
+            guarded(move || {
+                // directories created in the given order, then GameData::from_existing
+                let tmp = TempDir::new("c15-sort");
+                let game = tmp.path().join("game");
+                std::fs::create_dir_all(game.join("sqpack")).unwrap();
+                for n in &l {
+                    if *n != 0 {
+                        std::fs::create_dir_all(game.join("sqpack").join(format!("ex{}", n))).unwrap();
+                    } else {
+                        std::fs::create_dir_all(game.join("sqpack").join("ffxiv")).unwrap();
+                    }
+                }
+                let gd = physis::gamedata::GameData::from_existing(Platform::Win32, game.to_str().unwrap());
+                let disc: Vec<String> = match gd {
+                    Some(g) => g.repositories.iter().map(|r| r.name.clone()).collect(),
+                    None => vec!["none".into()],
+                };
+                disc.join(",")
+            })
+        }
+        _ => "bad-case".into(),
+    }
+}
+
+pub fn dump(out: &mut dyn Write) {
+    let args: Vec<String> = std::env::args().collect();
+    if args.get(3).map(|s| s == "witness").unwrap_or(false) {
+        witness(out);
+        return;
+    }
+    writeln!(out, "-- GENERATED by `harness C15 dump` from the compiled get_race_id / get_supported_tribes").unwrap();
+    writeln!(out, "-- (whole finite domain: 8 races x 16 tribes x 2 genders) — rewritten by ./check on every run").unwrap();
+    writeln!(out, "namespace Physis.Generated").unwrap();
+    writeln!(out, "/-- (race, tribe, gender, code) with code = 0 standing for `None` (no real code is 0) -/").unwrap();
+    writeln!(out, "def raceIdTable : List (Nat × Nat × Nat × Nat) := [").unwrap();
+    let mut first = true;
+    for r in 1..=8u64 {
+        for t in 1..=16u64 {
+            for g in 0..=1u64 {
+                let c = get_race_id(race(r).unwrap(), tribe(t).unwrap(), gender(g).unwrap()).unwrap_or(0);
+                writeln!(out, "  {}({}, {}, {}, {})", if first { " " } else { "," }, r, t, g, c).unwrap();
+                first = false;
+            }
+        }
+    }
+    writeln!(out, "]").unwrap();
+    writeln!(out, "/-- (race, first supported tribe, second supported tribe) -/").unwrap();
+    writeln!(out, "def supportedTribesTable : List (Nat × Nat × Nat) := [").unwrap();
+    for r in 1..=8u64 {
+        let t = get_supported_tribes(race(r).unwrap());
+        writeln!(out, "  {}({}, {}, {})", if r == 1 { " " } else { "," }, r, t[0] as u8, t[1] as u8).unwrap();
+    }
+    writeln!(out, "]").unwrap();
+    writeln!(out, "end Physis.Generated").unwrap();
+}
+
+/// brute force of path unambiguity on the real code: every equipment / skeleton / character path
+/// over valid triples, all slots / categories and ids 0..9999 must be distinct unless it was
+/// built from the same id, slot and body type
+fn path_collisions(out: &mut dyn Write) {
+    use std::collections::HashMap;
+    let body = |r: u64, t: u64, g: u64| (r, g, if r == 1 { t } else { 0 });
+    let mut n = 0;
+    let mut seen: HashMap<String, (u64, u64, (u64, u64, u64))> = HashMap::new();
+    let triples = valid_triples();
+    for (r, t, g) in &triples {
+        let (rr, tt, gg) = (race(*r).unwrap(), tribe(*t).unwrap(), gender(*g).unwrap());
+        if get_race_id(rr, tt, gg.clone()).is_none() {
+            continue;
+        }
+        for s in 0..10u64 {
+            for id in 0..10000u64 {
+                let p = build_equipment_path(id as i32, rr, tt, gg.clone(), slot(s).unwrap());
+                let key = (id, s, body(*r, *t, *g));
+                if let Some(prev) = seen.get(&p) {
+                    if *prev != key && n < 5 {
+                        writeln!(out, "WITNESS equipment path {} built from (id, slot, body) {:?} and {:?}", p, prev, key).unwrap();
+                        n += 1;
+                    }
+                } else {
+                    seen.insert(p, key);
+                }
+            }
+        }
+    }
+    let mut seen: HashMap<String, (u64, u64, (u64, u64, u64))> = HashMap::new();
+    for (r, t, g) in &triples {
+        let (rr, tt, gg) = (race(*r).unwrap(), tribe(*t).unwrap(), gender(*g).unwrap());
+        if get_race_id(rr, tt, gg.clone()).is_none() {
+            continue;
+        }
+        let p = build_skeleton_path(rr, tt, gg.clone());
+        let key = (0, 99, body(*r, *t, *g));
+        if let Some(prev) = seen.get(&p) {
+            if *prev != key {
+                writeln!(out, "WITNESS skeleton path {} built from body types {:?} and {:?}", p, prev.2, key.2).unwrap();
+            }
+        } else {
+            seen.insert(p, key);
+        }
+        for c in 0..5u64 {
+            for ver in 0..10000u64 {
+                let p = build_character_path(char_cat(c).unwrap(), ver as i32, rr, tt, gg.clone());
+                let key = (ver, c, body(*r, *t, *g));
+                if let Some(prev) = seen.get(&p) {
+                    if *prev != key && n < 10 {
+                        writeln!(out, "WITNESS character path {} built from (version, category, body) {:?} and {:?}", p, prev, key).unwrap();
+                        n += 1;
+                    }
+                } else {
+                    seen.insert(p, key);
+                }
+            }
+        }
+    }
+}
+
+/// brute force of the property's finite part on the real code
+fn witness(out: &mut dyn Write) {
+    path_collisions(out);
+    let own = |r: u64| [2 * r - 1, 2 * r];
+    let body = |r: u64, t: u64, g: u64| (r, g, if r == 1 { t } else { 0 });
+    let mut seen: Vec<((u64, u64, u64), i32, (u64, u64, u64))> = vec![];
+    for r in 1..=8u64 {
+        let st = get_supported_tribes(race(r).unwrap());
+        let st = [st[0] as u8 as u64, st[1] as u8 as u64];
+        if st != own(r) {
+            writeln!(out, "WITNESS get_supported_tribes(race {}) = {:?}, its own tribes are {:?}", r, st, own(r)).unwrap();
+        }
+        for t in 1..=16u64 {
+            for g in 0..=1u64 {
+                let c = get_race_id(race(r).unwrap(), tribe(t).unwrap(), gender(g).unwrap());
+                let valid = own(r).contains(&t);
+                match (valid, c) {
+                    (true, None) => writeln!(out, "WITNESS get_race_id(race {}, tribe {}, gender {}) = None for a valid triple", r, t, g).unwrap(),
+                    (false, Some(c)) => writeln!(out, "WITNESS get_race_id(race {}, tribe {}, gender {}) = Some({}) for an invalid triple", r, t, g, c).unwrap(),
+                    (true, Some(c)) => {
+                        for (b2, c2, tr2) in &seen {
+                            if *c2 == c && *b2 != body(r, t, g) {
+                                writeln!(out, "WITNESS race code {} shared by distinct body types {:?} and {:?}", c, tr2, (r, t, g)).unwrap();
+                            }
+                        }
+                        seen.push((body(r, t, g), c, (r, t, g)));
+                    }
+                    _ => {}
+                }
+            }
+        }
+    }
+}
